@@ -56,7 +56,12 @@ def gen_globals():
     core.write_if_changed(core.GEN / "GenGlobals.v", globals_.translate(core.PKG))
 
 
-ALL = [gen_share, gen_tables, gen_stats, gen_pragma, gen_ops, gen_hash, gen_sites, gen_skeletons, gen_globals]
+def gen_forrange():
+    from pyt2coq import forrange
+    core.write_if_changed(core.GEN / "GenForRange.v", forrange.translate(core.PKG))
+
+
+ALL = [gen_forrange, gen_share, gen_tables, gen_stats, gen_pragma, gen_ops, gen_hash, gen_sites, gen_skeletons, gen_globals]
 
 
 def gen_all(strict=True):
